@@ -824,6 +824,31 @@ func main() {
 			cmd.Stderr = &werr
 			out, err := cmd.Output()
 			if err != nil || !strings.Contains(string(out), "racepass-done") {
+				// the free-running pass died: if it died INSIDE gocoin (panic / fatal error with a gocoin
+				// frame above the harness), that is an outcome of the scenarios under a free schedule
+				we := werr.String()
+				died := ""
+				for _, mark := range []string{"panic: ", "fatal error: "} {
+					if i := strings.LastIndex(we, mark); i >= 0 {
+						died = we[i:]
+					}
+				}
+				if died != "" && strings.Contains(died, "github.com/piotrnar/gocoin/lib/") {
+					first := strings.SplitN(died, "\n", 2)[0]
+					site := "unknown"
+					for _, l := range strings.Split(died, "\n") {
+						l = strings.TrimSpace(l)
+						if strings.HasPrefix(l, "github.com/piotrnar/gocoin/lib/") && !strings.Contains(l, "/vshim/") {
+							site = strings.TrimPrefix(l, "github.com/piotrnar/gocoin/")
+							if i := strings.LastIndex(site, "("); i > 0 {
+								site = site[:i]
+							}
+							break
+						}
+					}
+					r.Report("free-running-crash/"+site, "the free-running pass of the scenarios crashed inside gocoin: "+explore.Short(first, 200)+" | "+explore.Short(died, 1200), map[string]interface{}{"gomaxprocs": procs})
+					continue
+				}
 				ev.HarnessError("race pass (GOMAXPROCS=%s) failed: %v %s", procs, err, explore.Short(tailStr(werr.String(), 1500), 1500))
 			}
 			raceRuns += iters * len(scs)
